@@ -225,3 +225,8 @@ def describe(plan):
     return {"client": plan["client"], "segmentation_mode": plan.get("mode"),
             "messages": [{k: m[k] for k in ("pgn", "id", "src", "dst", "prio", "payload")} for m in plan["messages"]][:6],
             "chunk_sizes": plan.get("chunks", [])[:12]}
+
+
+def seam_check():
+    from .common import seam_net, seam_clock, seam_fs
+    return seam_net()
